@@ -1169,4 +1169,157 @@ example : (run [.newOrder 0 0 [1], .respond 0 0 5 .success, .getOrder 0 0 (lifet
 /-- a second finalize of a valid order signs nothing -/
 example : certsOf (run (happy ++ [.finalize 0 0 105 true true false])) 0 = 1 := by decide
 
+/-! ## ownership (used by C13: "backed by a valid authorization of the same account") -/
+
+/-- ownership: the authorizations of an order and the challenges of an authorization exist and
+    belong to the same account -/
+structure Own (s : Store) : Prop where
+  ord : ∀ (i : Nat) (o : Order), s.orders[i]? = some o → ∀ a ∈ o.authzs,
+    ∃ az, s.authzs[a]? = some az ∧ az.acct = o.acct
+  az : ∀ (a : Nat) (az : Authz), s.authzs[a]? = some az → ∀ c ∈ az.chals,
+    ∃ ch, s.chals[c]? = some ch ∧ ch.acct = az.acct
+
+theorem own_old {op : Op} {s s' : Store} (W : Own s) (o : Old op s s') (l : SameLen s s') : Own s' := by
+  constructor
+  · intro i o' h' a ha
+    obtain ⟨o0, h⟩ := some_of_len l.orders h'
+    obtain ⟨o'', h'', ac, _, zs, _⟩ := o.order i o0 h
+    rw [h'] at h''; cases h''
+    rw [zs] at ha
+    obtain ⟨az, haz, hac⟩ := W.ord i o0 h a ha
+    obtain ⟨az', haz', ac', _⟩ := o.authz a az haz
+    exact ⟨az', haz', by rw [ac', hac, ac]⟩
+  · intro a az' h' c hc
+    obtain ⟨az, h⟩ := some_of_len l.authzs h'
+    obtain ⟨az'', h'', ac, _, cs, _⟩ := o.authz a az h
+    rw [h'] at h''; cases h''
+    rw [cs] at hc
+    obtain ⟨ch, hch, hac⟩ := W.az a az h c hc
+    obtain ⟨ch', hch', ac', _⟩ := o.chal c ch hch
+    exact ⟨ch', hch', by rw [ac', hac, ac]⟩
+
+theorem own_grow_weak {s s' : Store} (W : Own s) (g : Grow s s') :
+    (∀ (i : Nat) (o : Order), s.orders[i]? = some o → ∀ a ∈ o.authzs, ∃ az, s'.authzs[a]? = some az ∧ az.acct = o.acct) ∧
+    (∀ (a : Nat) (az : Authz), s.authzs[a]? = some az → ∀ c ∈ az.chals, ∃ ch, s'.chals[c]? = some ch ∧ ch.acct = az.acct) :=
+  ⟨fun i o h a ha => by
+      obtain ⟨az, haz, hac⟩ := W.ord i o h a ha
+      exact ⟨az, get_of_grow_authz g haz, hac⟩,
+   fun a az h c hc => by
+      obtain ⟨ch, hch, hac⟩ := W.az a az h c hc
+      exact ⟨ch, get_of_grow_chal g hch, hac⟩⟩
+
+/-- one iteration of newAuthorization: `n` challenges, then the authorization -/
+def addAuthz (s : Store) (acct exp n : Nat) : Store :=
+  { s with
+    chals := s.chals ++ List.replicate n ({ acct := acct, status := .pending } : Chal)
+    authzs := s.authzs ++ [({ acct := acct, status := .pending, expires := exp, chals := List.range' s.chals.length n } : Authz)] }
+
+theorem createAuthzs_cons (s : Store) (acct exp n : Nat) (ns : List Nat) :
+    createAuthzs s acct exp (n :: ns) =
+      ((createAuthzs (addAuthz s acct exp n) acct exp ns).1,
+       s.authzs.length :: (createAuthzs (addAuthz s acct exp n) acct exp ns).2) := by
+  simp [createAuthzs, addAuthz]
+
+theorem addAuthz_grow (s : Store) (acct exp n : Nat) : Grow s (addAuthz s acct exp n) := by
+  refine ⟨⟨_, rfl, ?_⟩, ⟨_, rfl, ?_⟩, ⟨[], by simp [addAuthz]⟩, rfl⟩
+  · intro c hc; rw [List.eq_of_mem_replicate hc]
+  · intro a ha; simp at ha; rw [ha]
+
+theorem addAuthz_own (s : Store) (acct exp n : Nat) (W : Own s) : Own (addAuthz s acct exp n) := by
+  obtain ⟨w1, w2⟩ := own_grow_weak W (addAuthz_grow s acct exp n)
+  constructor
+  · intro i o h a ha
+    exact w1 i o h a ha
+  · intro a az h c hc
+    have ha2 : (addAuthz s acct exp n).authzs = s.authzs ++ [({ acct := acct, status := .pending, expires := exp, chals := List.range' s.chals.length n } : Authz)] := rfl
+    rw [ha2] at h
+    rcases Nat.lt_or_ge a s.authzs.length with hl | hl
+    · rw [List.getElem?_append_left hl] at h
+      exact w2 a az h c hc
+    · rw [List.getElem?_append_right hl] at h
+      have haz : az = ({ acct := acct, status := .pending, expires := exp, chals := List.range' s.chals.length n } : Authz) := by
+        have := List.mem_of_getElem? h; simpa using this
+      subst haz
+      simp [List.mem_range'_1] at hc
+      have hc2 : (addAuthz s acct exp n).chals = s.chals ++ List.replicate n ({ acct := acct, status := .pending } : Chal) := rfl
+      refine ⟨{ acct := acct, status := .pending }, ?_, rfl⟩
+      rw [hc2, List.getElem?_append_right hc.1]
+      simp [List.getElem?_replicate]; omega
+
+theorem createAuthzs_own (acct exp : Nat) : ∀ (ns : List Nat) (s : Store), Own s →
+    Own (createAuthzs s acct exp ns).1 ∧ (createAuthzs s acct exp ns).1.orders = s.orders ∧
+    ∀ a ∈ (createAuthzs s acct exp ns).2, ∃ az, (createAuthzs s acct exp ns).1.authzs[a]? = some az ∧ az.acct = acct := by
+  intro ns
+  induction ns with
+  | nil => intro s W; exact ⟨W, rfl, by simp [createAuthzs]⟩
+  | cons n ns ih =>
+    intro s W
+    rw [createAuthzs_cons]
+    obtain ⟨W3, ho3, hall⟩ := ih _ (addAuthz_own s acct exp n W)
+    have gg := createAuthzs_grow acct exp ns (addAuthz s acct exp n)
+    have hnew : (addAuthz s acct exp n).authzs[s.authzs.length]? = some ({ acct := acct, status := .pending, expires := exp, chals := List.range' s.chals.length n } : Authz) := by simp [addAuthz]
+    refine ⟨W3, ho3, ?_⟩
+    intro a ha
+    rcases List.mem_cons.mp ha with rfl | ha
+    · exact ⟨_, get_of_grow_authz gg hnew, rfl⟩
+    · exact hall a ha
+
+
+theorem own_step (s : Store) (op : Op) (W : Own s) : Own (step s op).1 := by
+  by_cases h : ∃ acct now nch, op = .newOrder acct now nch
+  · obtain ⟨acct, now, nch, rfl⟩ := h
+    simp only [step]
+    unfold newOrder
+    split
+    · exact W
+    simp only
+    obtain ⟨W1, ho1, hall⟩ := createAuthzs_own acct (now + lifetime) nch s W
+    have g1 := createAuthzs_grow acct (now + lifetime) nch s
+    cases hc : createAuthzs s acct (now + lifetime) nch with
+    | mk s1 azs =>
+      rw [hc] at W1 ho1 hall g1
+      dsimp only at W1 ho1 hall g1 ⊢
+      have W2 : Own { s1 with orders := s1.orders ++
+          [({ acct := acct, status := .pending, expires := now + lifetime, authzs := azs, cert := none } : Order)] } := by
+        constructor
+        · intro i o h a ha
+          dsimp only at h
+          rcases Nat.lt_or_ge i s1.orders.length with hl | hl
+          · rw [List.getElem?_append_left hl] at h
+            exact W1.ord i o h a ha
+          · rw [List.getElem?_append_right hl] at h
+            have : o = ({ acct := acct, status := .pending, expires := now + lifetime, authzs := azs, cert := none } : Order) := by
+              have := List.mem_of_getElem? h; simpa using this
+            subst this
+            exact hall a ha
+        · exact W1.az
+      have u := pollIndex_upd { s1 with orders := s1.orders ++
+          [({ acct := acct, status := .pending, expires := now + lifetime, authzs := azs, cert := none } : Order)] }
+        acct now [s1.orders.length]
+      cases hp : pollIndex { s1 with orders := s1.orders ++
+          [({ acct := acct, status := .pending, expires := now + lifetime, authzs := azs, cert := none } : Order)] }
+        acct now [s1.orders.length] with
+      | mk s3 r =>
+        rw [hp] at u
+        dsimp only at u
+        have : Own s3 := own_old (op := .newOrder acct now nch) W2 (old_of_upd u) (sameLen_of_upd u)
+        cases r <;> exact this
+  · exact own_old W (step_old s op) (step_len s op (fun a n k e => h ⟨a, n, k, e⟩))
+
+/-- **authz_owner**: after every history, the authorizations of an order exist and belong to the
+    order's account, and the challenges of an authorization exist and belong to its account. -/
+theorem authz_owner (h : List Op) : Own (run h) :=
+  run_induction Own ⟨by intro i o h; simp at h, by intro a az h; simp at h⟩ own_step h
+
+/-- C13's "each identifier is backed by a valid authorization of the same account": after every
+    history, every authorization of a ready or valid order is valid and owned by the order's account. -/
+theorem finalizable_order_authorizations (h : List Op) (i : Nat) (o : Order)
+    (ho : (run h).orders[i]? = some o) (hs : o.status = .ready ∨ o.status = .valid) :
+    ∀ a ∈ o.authzs, ∃ az, (run h).authzs[a]? = some az ∧ az.status = .valid ∧ az.acct = o.acct := by
+  intro a ha
+  obtain ⟨az, haz, hv⟩ := order_ready_cause_history h i o ho hs a ha
+  obtain ⟨az', haz', hac⟩ := (authz_owner h).ord i o ho a ha
+  rw [haz] at haz'; cases haz'
+  exact ⟨az, haz, hv, hac⟩
+
 end Verif.AcmeSM
